@@ -1,5 +1,6 @@
 import YtkModel.Wire
 import YtkModel.Builder
+import YtkDriver.HeapHist
 open Lean
 
 namespace Ytk.C03
@@ -43,6 +44,10 @@ def handle : Wire.Handler := fun op a => do
     pure (Json.mkObj [("states", .arr states), ("outcome", .str outcome),
       ("lookups", .arr (probes.map fun p => Wire.optNodeToJson (lookup d p)).toArray),
       ("flatten", .arr ((flattenMap d).map fun (p, s) => Json.arr #[.str p, Wire.nodeToJson (.leaf s)]).toArray)])
+  | "heapHistory" =>
+    -- explicit heap + root + a history of builder calls on the root / on returned handles, at
+    -- pointer level (YtkModel/HeapBuilder.lean)
+    HeapHist.run a
   | _ => throw s!"C03: unknown op {op}"
 
 end Ytk.C03
